@@ -68,6 +68,7 @@ func c06(c *ev.Ctx) {
 	c06Names(c)
 	c06Fixed(c)
 	c06PartialReturn(c)
+	c06ReadYourWrite(c)
 	// a built-in (also one the host adds later, after Prepare, between runs) wins over a
 	// function of the same name that the script defines
 	if c.Want("late-built-in") {
@@ -266,6 +267,55 @@ func c06PartialReturn(c *ev.Ctx) {
 				c.Case(script+fmt.Sprint(noOpt), true)
 				if got != cl.want {
 					c.Violation(id, "function returning on some paths only", map[string]interface{}{"summary": fmt.Sprintf("%s (noopt=%v) gives %s, expected %s", script, noOpt, got, cl.want), "script": script})
+				}
+			}
+		}
+	}
+}
+
+// c06ReadYourWrite: inside a function, a name that has just been assigned reads as the
+// value assigned - whichever variable the name denotes there. The callee's names clash
+// with a parameter, a local or a loop variable of its *caller* and with a global at the
+// same time: which of the two an assignment in the callee reaches is not asserted (the
+// reference model calls that don't-care), only that the read that follows the assignment
+// in the same function sees it, and that the callee's own bindings win inside the callee.
+func c06ReadYourWrite(c *ev.Ctx) {
+	cases := []struct{ script, want string }{
+		{`v = 1; function inner() { v = 5; return v; } function outer(v) { return inner(); } return outer(2);`, "INTEGER:5"},
+		{`v = 1; function inner() { v = 5; v = v + 1; return v; } function outer(v) { x = inner(); return x; } return outer(2);`, "INTEGER:6"},
+		{`total = 100; function step() { total = 7; total = total + 1; return total; } function count(total) { return step(); } return count(5);`, "INTEGER:8"},
+		{`e = "g"; function inner() { e = 9; return e; } r = 0; foreach e in [1, 2] { r = inner(); } return r;`, "INTEGER:9"},
+		{`i = "g"; function inner() { i = "w"; return i + i; } r = ""; foreach i, e in ["a"] { r = inner(); } return r;`, "STRING:ww"},
+		{`n = 1; function inner() { n = 3; n++; n += 2; n *= 2; return n; } function outer() { local n; n = 50; return inner(); } return outer();`, "INTEGER:12"},
+		{`n = 1; function inner() { n = 3; return n; } function mid(n) { return inner(); } function outer(n) { return mid(n + 1); } return outer(10);`, "INTEGER:3"},
+		{`v = 1; function inner(v) { v = v + 1; return v; } function outer(v) { return inner(10) + v; } return outer(2);`, "INTEGER:13"},
+		{`v = 1; function inner() { local v; v = 8; return v; } function outer(v) { return inner() + v; } return outer(2);`, "INTEGER:10"},
+		{`Name = "var"; function inner() { Name = "set"; return Name; } function outer(Name) { return inner(); } return outer("param");`, "STRING:set"},
+		{`k = 0; function inner() { k = "x"; h = {"k": k}; return h["k"] + k; } function outer(k) { return inner(); } return outer(1);`, "STRING:xx"},
+		{`v = 1; function inner() { foreach v in [4] { v = v + 1; w = v; } return w; } function outer(v) { return inner(); } return outer(2);`, "INTEGER:5"},
+	}
+	for ci, tc := range cases {
+		for _, noOpt := range []bool{false, true} {
+			id := fmt.Sprintf("read-your-write/%d/%v", ci, noOpt)
+			if !c.Want(id) {
+				continue
+			}
+			evr, err := eng.New(tc.script, eng.Options{NoOptimize: noOpt})
+			c.Case(id, true)
+			if err != nil {
+				c.Violation(id, "prepare", map[string]interface{}{"summary": "Prepare failed: " + err.Error(), "script": tc.script})
+				continue
+			}
+			for run := 1; run <= 2; run++ {
+				o := evr.Exec(map[string]interface{}{"Name": "field"})
+				if o.Desc() != tc.want {
+					c.Violation(id, "a name read right after its assignment", map[string]interface{}{
+						"summary": fmt.Sprintf("%s (noopt=%v, run %d) gives %s %s, expected %s: inside one function a name reads as what was just assigned to it", tc.script, noOpt, run, o.Desc(), errText(o.Err), tc.want), "script": tc.script})
+					break
+				}
+				if d := evr.ScopeDepth(); d != 0 {
+					c.Violation(id, "scopes left open", map[string]interface{}{"summary": fmt.Sprintf("%s: %d scope(s) open after the run", tc.script, d), "script": tc.script})
+					break
 				}
 			}
 		}
